@@ -315,7 +315,7 @@ public:
             static bool await_ready() {
                 thread_pool *c = _current;
                 COCLS_VERIF_POINT(tp_current_ready);
-                return c == nullptr || c->_exit;
+                return c == nullptr || c->is_stopped();
             }
         };
 
